@@ -19,15 +19,20 @@
     cal.isofast d                   → y m dd      (the calendar-less ISO constructor with its 1900–2100 tables)
     cal.pack y m d ord              → packed value and the four fields read back
     cal.tbl name i                  → table entry (uaq | badi | pastro)
+    cal.wf c                        → 1 when `wfCheck` (Calendar/WfCheck.lean) holds for the calendar: every conjunct of `WF`, every year
     cal.dens c                      → 1 when the Persian leap-year density bound holds (c = 6, 7, 8)
+    ref.agree k                     → 1 when `refAgree` (Calendar/RefAgree.lean) holds: model = reference, every year and month
     ref.* ops of Calendar/Reference.lean
 -/
 import PyodaModel.Calendar.Core
 import PyodaModel.Calendar.Tables
 import PyodaModel.Calendar.Systems
 import PyodaModel.Calendar.Reference
+import PyodaModel.Calendar.WfCheck
+import PyodaModel.Calendar.RefAgree
 
 namespace Pyoda.Calendar
+open Reference (refOf)
 
 /-- `calendar._validate_year_month_day` with the Gregorian override -/
 def validateOrd (ord : Nat) (c : Calc) (y m d : Int) : R Unit :=
@@ -123,6 +128,11 @@ def handle (toks : List String) : Option String :=
         let p := packYmdc y m d o
         some (showInts [p, unpackYear p, unpackMonth p, unpackDay p, unpackOrd p])
       | _ => none
+  | ["ref.agree", k] => do
+      let n ← k.toNat?
+      let _ ← refOf n
+      some (showBool (refAgree n))
+  | ["cal.wf", c] => withCalc c fun _ c => some (showBool (wfCheck c))
   | ["cal.dens", c] => do
       -- leap-year density pass of the Persian calendars (evaluated natively; see C01Persian.lean)
       let n ← c.toNat?
